@@ -398,6 +398,27 @@ def run(ctx):
     if not (rs and rec and scan):
         raise AnalysisError('C20.R4: _check_and_fix_integrity structure '
                             'lost')
+    # the child handed to the normal completion path is the current one:
+    # the most recent execution of the task (after a rerun / a retry the
+    # earlier children are superseded results; a regular task takes its
+    # state from the execution it is told about)
+    for _n, c in rec:
+        a = c.args[0] if c.args else None
+        last = isinstance(a, ast.Subscript) and (
+            (isinstance(a.slice, ast.UnaryOp) and
+             isinstance(a.slice.op, ast.USub) and
+             isinstance(a.slice.operand, ast.Constant) and
+             a.slice.operand.value == 1) or
+            norm(a.slice) == 'len(%s) - 1' % norm(a.value))
+        chosen = isinstance(a, ast.Name) and any(
+            isinstance(x, ast.Attribute) and x.attr == 'accepted'
+            for x in ast.walk(ic.node))
+        r4.check(last or chosen,
+                 ctx.construct(ic, extra='recovers with the latest child'),
+                 'the stuck task is completed with %s, not with its most '
+                 'recent child execution: after a rerun the task takes the '
+                 'superseded result of the first attempt' % norm(a),
+                 ctx.loc(ic, c))
     for n, c in rs + rec + scan:
         v = IN[n.id]
         r4.check(all(x[1] == OBJ and x[0] not in completed for x in v),
